@@ -241,6 +241,9 @@ pub fn run(ctx: &Ctx) -> Outcome {
             acc.finding(finding(src, what, e, o));
         }
     }
+    if acc.get("accepted sources with attributes") == 0 {
+        machinery_error(format!("C12: the verbatim oracle applied to no source at all ({:?})", acc.self_check_errors.first()));
+    }
     let capped = acc.get("units skipped by the wall-clock budget") > 0;
     let sources = acc.get("sources");
     out.cov("evaluations", json!(sources));
